@@ -98,22 +98,17 @@ fn markdown_comments_parser() -> anyhow::Result<impl CommentsParser> {
             let comment = &source_code[node.byte_range()];
             let prefix_idx = comment.find("[//]:")?;
             let start_search = prefix_idx + 5;
+            // A link reference definition without a (properly delimited) title is not a comment.
             let open_idx = comment[start_search..]
                 .find(|c| ['(', '"', '\''].contains(&c))
-                .map(|i| i + start_search)
-                .expect("comment is expected to have a title delimiter");
+                .map(|i| i + start_search)?;
 
-            let open_char = comment.chars().nth(open_idx).unwrap();
-            let close_char = match open_char {
+            let close_char = match comment[open_idx..].chars().next()? {
                 '(' => ')',
-                '"' => '"',
-                '\'' => '\'',
-                _ => unreachable!(),
+                quote => quote,
             };
 
-            let close_idx = comment
-                .rfind(close_char)
-                .expect("comment is expected to end with matching delimiter");
+            let close_idx = comment.rfind(close_char).filter(|idx| *idx > open_idx)?;
 
             let mut result = String::with_capacity(comment.len());
             result.push_str(&comment[..prefix_idx]);
